@@ -26,8 +26,8 @@ def run_property(prop: str, tier: str = "quick", seed: int = 0, overlay=None, wr
         prog = Program(root=root, overlay=overlay)
         ctx = Ctx(prop, prog, tier=tier, seed=seed, write=write, t0=t0)
         mod.run(ctx)
-        if tier == "thorough" and hasattr(mod, "thorough"):
-            mod.thorough(ctx)
+        if tier == "thorough" and overlay is None:
+            thorough(ctx, mod)
         return ctx.finish()
     except BrokenPipeError:
         return 2
@@ -38,6 +38,29 @@ def run_property(prop: str, tier: str = "quick", seed: int = 0, overlay=None, wr
         traceback.print_exc()
         print(f"ANALYSIS-ERROR property={prop} internal error: {type(e).__name__}: {e}")
         return 2
+
+
+def thorough(ctx, mod):
+    """quick + package-wide sweeps (observations) + the self-validation corpus of the property's rules on overlays of
+    the *current* tree.  A corpus failure with no violation on the current tree means the checker cannot vouch for
+    'held': exit 2, never a manufactured VIOLATION."""
+    from .selftest import run_corpus
+    from .sweeps import all_sweeps
+    if hasattr(mod, "thorough"):
+        mod.thorough(ctx)
+    ctx.extra["sweeps"] = all_sweeps(ctx.prog)
+    rep = run_corpus(ctx.prop, jobs=int(os.environ.get("VERIF_JOBS", "16")))
+    if rep is not None:
+        ctx.extra["self_validation"] = {"variants": rep["total"], "as_expected": rep["ok"], "stale": rep["stale"],
+                                        "failed": [f["name"] for f in rep["failed"]]}
+        ctx.counts["self_validation_variants"] = rep["total"]
+        for i in range(rep["ok"]):
+            pass
+        ctx.obligations.append({"rule": "selftest", "site": "sa/corpus", "verdict": "holds" if not rep["failed"] else "VIOLATED",
+                                "what": f"{rep['ok']}/{rep['total']} one-construct variants of the current tree behave as expected "
+                                        f"(violating variants reported, behaviour-preserving rewrites silent); stale: {len(rep['stale'])}"})
+        if rep["failed"] and not ctx.findings:
+            raise AnalysisError(f"self-validation failed for {[f['name'] for f in rep['failed']]}: the checker cannot vouch for 'held'")
 
 
 def main(argv) -> int:
